@@ -78,8 +78,10 @@ func executeFlipRetry(t *testing.T, prop string, seed uint64, p *FlipPlan) *core
 		return res
 	}
 	buf := make([]byte, 70000)
-	try := func(second []byte) (got []byte, rerr error, pk string) {
-		sc := simnet.NewScript(b.outerRec)
+	var tryWith func(first, second []byte) (got []byte, rerr error, pk string)
+	try := func(second []byte) (got []byte, rerr error, pk string) { return tryWith(b.outerRec, second) }
+	tryWith = func(first, second []byte) (got []byte, rerr error, pk string) {
+		sc := simnet.NewScript(first)
 		sc.NoEOF = true
 		p, m, s := core.Guard(func() {
 			conn, err := ech.NewConn(context.Background(), sc, keyOptions(b.keys)...)
@@ -113,6 +115,27 @@ func executeFlipRetry(t *testing.T, prop string, seed uint64, p *FlipPlan) *core
 	if pk != "" || rerr != nil || !bytes.Equal(got, w) {
 		res.Fail(prop, "rejected-valid", "positive control: authentic retried hello not replaced by the reference inner", "err=%v panic=%q", rerr, pk)
 		return res
+	}
+	// substitution: the retried hello names (consistently, so that the AAD
+	// agrees) another AEAD than the first one while continuing its HPKE context:
+	// it must be aborted, never replaced by a reconstructed hello
+	if p.Only == nil {
+		if b2, err := buildScript(seed, &base); err == nil {
+			hc2 := &histClient{p: &base, b: b2, r: res, seed: seed, sendSeq: 1}
+			if sub, _, _, _, err := hc2.hello2("hello2-suite-pre", 0, true); err == nil {
+				got, rerr, pk := tryWith(b2.outerRec, sub)
+				res.Evals++
+				res.Fault("mut:retry-suite-relabelled")
+				switch {
+				case pk != "":
+					res.Fail(prop, "panic", pk, "retried hello naming another AEAD")
+				case rerr == nil && !bytes.Equal(got, sub):
+					res.Fail(prop, "accepted-unauthentic", "retried hello naming another cipher suite than the first one replaced by a reconstructed hello", "first hello AEAD %d", b2.sealer.Suite.AEAD)
+				case rerr == nil:
+					res.Fail(prop, "accepted-unauthentic", "retried hello naming another cipher suite passed on instead of being aborted", "")
+				}
+			}
+		}
 	}
 	lo, hi := 0, len(rec2)*8
 	if p.Only != nil {
